@@ -303,10 +303,17 @@ fn extract_source_map<R: Read>(
 ) -> OriginalSourceMap {
     let mut source_map_comment = None;
     let mut source: Option<SourceMap> = None;
+    let mut last_pos = None;
     for trailing in comments.trailing.iter() {
         for comment in trailing.iter() {
             let trim_comment = comment.text.trim();
             if trim_comment.starts_with(SOURCE_MAP_URL) {
+                // with several sourceMappingURL comments the last one in the file wins; do not depend on
+                // the (unspecified) iteration order of the comments map
+                if last_pos.is_some_and(|pos| *trailing.key() < pos) {
+                    continue;
+                }
+                last_pos = Some(*trailing.key());
                 source_map_comment = Some(String::from(comment.text.as_str()));
                 let url = trim_comment.get(SOURCE_MAP_URL.len()..).unwrap();
                 source = decode_data_url(url)
